@@ -100,6 +100,21 @@ fn front_case(which: &str, text: &str) -> Sx {
     sx::tagged("front", vec![sx::atom(which), src_sx(text)])
 }
 
+fn options_case(text: &str, tosource: bool, pre: &str) -> Sx {
+    sx::tagged("options", vec![src_sx(text), sx::boolean(tosource), sx::atom(pre)])
+}
+fn preamble_of(pre: &str) -> Option<String> {
+    match pre {
+        "none" => None,
+        "empty" => Some(String::new()),
+        "one" => Some("use std::fmt;".into()),
+        _ => Some("use std::fmt; pub const VERIF_PREAMBLE: u32 = 1; pub fn verif_preamble() -> u32 { VERIF_PREAMBLE } pub struct VerifPreamble;".into()),
+    }
+}
+fn frontpath_case(which: &str, rel: &str, text: &str) -> Sx {
+    sx::tagged("frontpath", vec![sx::atom(which), sx::xs(rel), src_sx(text)])
+}
+
 fn frontmany_case(texts: &[&str]) -> Sx {
     sx::tagged("frontmany", texts.iter().map(|t| src_sx(t)).collect())
 }
@@ -359,6 +374,11 @@ pub fn witnesses() -> Vec<(&'static str, &'static str)> {
         ("ok", "interface a.b\nmethod M(x: int) -> (y: int)\n"),
         ("ok", "interface X--y.9.Z-0.q.UPPER.l0-w--3r\ntype T (a: int)\nmethod Get(t: T) -> (t: ?T)\nerror E9 ()\n"),
         ("ok", "interface org.example.tags\ntype Tagged (name: string, tags: [string](), groups: [][string](), maybe: ?[string](), byname: [string][string]())\nmethod Tag(tags: [string]()) -> (tags: [string]())\nmethod Merge(sets: [][string](), extra: ?[string](), t: Tagged) -> (all: [string](), t: ?Tagged)\nerror Bad (seen: [string]())\n"),
+        // rejected texts whose parse error sits at the very end, right after a newline
+        ("rejected", "interface org.example.w\n"),
+        ("rejected", "interface org.example.w\n\nmethod Foo(a: int,\n"),
+        ("rejected", "interface org.example.w\n\nmethod Foo() -> ()\n\ntype T (\n"),
+        ("rejected", "interface org.example.w\n\n\n"),
         ("not-well-formed", "interface org.example.w\nmethod Foo(a: int, a: int) -> ()\n"),
         ("not-well-formed", "interface org.example.w\nmethod Foo(e: Nope) -> ()\n"),
         ("not-well-formed", "interface org.example.w\ntype T (next: T)\nmethod Foo(t: T) -> ()\n"),
@@ -534,10 +554,48 @@ fn all_cases(ctx: &Ctx) -> Vec<Case> {
         }
         cases.push(Case { input: sx::tagged("helper-batch", vec![]), tags: vec!["kind:helper-batch".into()] });
     }
+    // option matrix: tosource x preamble, every output compiled
+    {
+        let ok_w: Vec<&str> = witnesses().into_iter().filter(|w| w.0 == "ok").map(|w| w.1).collect();
+        let mut subjects: Vec<String> = vec![ok_w[ok_w.len() - 1].to_string(), ok_w[2].to_string()];
+        if ctx.thorough {
+            subjects.extend(texts.iter().step_by(9).take(6).cloned());
+        }
+        for t in &subjects {
+            for tosource in [true, false] {
+                for pre in ["none", "empty", "one", "several"] {
+                    cases.push(Case { input: options_case(t, tosource, pre), tags: vec!["kind:options".into(), format!("tosource:{}", tosource), format!("preamble:{}", pre)] });
+                }
+            }
+        }
+        cases.push(Case { input: options_case(witnesses()[0].1, true, "one"), tags: vec!["kind:options".into(), "gen:panic".into()] });
+        cases.push(Case { input: options_case("interface org.example.w\n", true, "one"), tags: vec!["kind:options".into(), "parse:rejected".into()] });
+    }
+    // the cargo_build* entry points on input paths whose directory components contain dots / start with ./ or ../
+    {
+        let subject = witnesses().into_iter().filter(|w| w.0 == "ok").map(|w| w.1).next().unwrap();
+        let rels = ["org.example.plain.varlink", "./org.example.dot.varlink", "./src/org.example.x.varlink", "ifaces-1.0/org.example.x.varlink",
+                    "../sibling.d/org.example.x.varlink", "a.b/c.d/e.f.varlink", "./v1.2.3/x.varlink", "nodots/x.varlink"];
+        for (k, rel) in rels.iter().enumerate() {
+            for which in ["tosource", "one", "many"] {
+                if ctx.thorough || which == "tosource" || k % 3 == 0 {
+                    cases.push(Case { input: frontpath_case(which, rel, subject), tags: vec!["kind:frontpath".into(), format!("front:{}", which), format!("path:{}", rel)] });
+                }
+            }
+        }
+        cases.push(Case { input: frontpath_case("tosource", "./src.d/org.example.bad.varlink", "interface org.example.w\n"), tags: vec!["kind:frontpath".into(), "parse:rejected".into()] });
+    }
     // a definition the generator handles but rustc rejects: the proc macro must fail in rustc, the other
     // front-ends still emit the text
     for w in ["derive", "build", "bin"] {
         cases.push(Case { input: front_case(w, witnesses()[4].1), tags: vec!["kind:front".into(), format!("front:{}", w), "gen:rustc-fail".into()] });
+    }
+    for (class, text) in witnesses() {
+        if class == "rejected" {
+            for w in ["build", "tosource", "bin", "bin-stdin"] {
+                cases.push(Case { input: front_case(w, text), tags: vec!["kind:front".into(), format!("front:{}", w), "parse:rejected-at-final-newline".into()] });
+            }
+        }
     }
     // rejected texts
     let base: Vec<String> = if texts.is_empty() { repo_idls() } else { texts.clone() };
@@ -731,6 +789,43 @@ fn front_obs(which: &str, text: &str, derive_res: &BTreeMap<String, build::BinRe
     )
 }
 
+/// one cargo_build* entry point on an input path given RELATIVE to the working directory of the child process
+fn frontpath_obs(which: &str, rel: &str, text: &str) -> Sx {
+    let accepted = match Idl::parse(text) {
+        Ok(_) => sx::atom("ok"),
+        Err(k) => sx::tagged("rej", vec![sx::atom(k)]),
+    };
+    let base = build::work_dir().join("front").join(format!("{:016x}-path", build::fnv(format!("{}\u{0}{}\u{0}{}", which, rel, text).as_bytes())));
+    let _ = std::fs::remove_dir_all(&base);
+    let cwd = base.join("level1").join("cwd");
+    let out = base.join("out");
+    let _ = std::fs::create_dir_all(&cwd);
+    let _ = std::fs::create_dir_all(&out);
+    let input = cwd.join(rel);
+    if let Some(d) = input.parent() {
+        let _ = std::fs::create_dir_all(d);
+    }
+    std::fs::write(&input, text).expect("front input");
+    let mut c = std::process::Command::new(build::bin_path("fe_build"));
+    c.current_dir(&cwd).arg(which).arg(&out).arg(rel);
+    let (code, _, err) = run_tool(&mut c);
+    // where the documentation says the output goes
+    let rel_path = std::path::Path::new(rel);
+    let fname = rel_path.file_name().unwrap().to_string_lossy().to_string();
+    let expected = if which == "tosource" {
+        let stem = fname.strip_suffix(".varlink").unwrap_or(&fname).replace('.', "_");
+        input.parent().unwrap().join(format!("{}.rs", stem))
+    } else {
+        out.join(std::path::Path::new(&fname).with_extension("rs"))
+    };
+    let produced = std::fs::read_to_string(&expected).unwrap_or_default();
+    let same = match generate_inproc(text, which == "tosource") {
+        GenStatus::Ok(r) => sx::boolean(r == produced),
+        _ => sx::atom("-"),
+    };
+    sx::tagged("frontpath", vec![accepted, sx::atom(status_of(code, &err)), sx::boolean(!produced.is_empty()), same])
+}
+
 /// `cargo_build_many(&[f0, f1, …])` in one process (the fe_build tool of the probe package)
 fn frontmany_obs(texts: &[String]) -> Sx {
     let mut key = String::new();
@@ -791,13 +886,25 @@ fn prepare(cases: &[Sx]) -> HashMap<String, String> {
     // 1. programs
     let mut progs: BTreeMap<String, Prog> = BTreeMap::new();
     let mut derive_texts: Vec<String> = Vec::new();
+    let mut opt_specs: Vec<build::OptSpec> = Vec::new();
     for c in cases {
         let l = match c.as_list() {
             Some(l) => l,
             None => continue,
         };
         let kind = l.first().and_then(|x| x.as_atom()).unwrap_or("");
-        if kind == "frontmany" || kind == "helper-batch" {
+        if kind == "frontmany" || kind == "helper-batch" || kind == "frontpath" {
+            continue;
+        }
+        if kind == "options" {
+            if let (Some(t), Some(ts), Some(pre)) = (l.get(1).and_then(src_text), l.get(2).and_then(|x| x.as_atom()), l.get(3).and_then(|x| x.as_atom())) {
+                if Idl::parse(&t).is_ok() || true {
+                    let stem = format!("o{:016x}", build::fnv(format!("{}\u{0}{}\u{0}{}", t, ts, pre).as_bytes()));
+                    if !opt_specs.iter().any(|o: &build::OptSpec| o.stem == stem) {
+                        opt_specs.push(build::OptSpec { stem, idl_text: t, tosource: ts == "t", preamble: preamble_of(pre) });
+                    }
+                }
+            }
             continue;
         }
         if kind == "front" {
@@ -834,9 +941,10 @@ fn prepare(cases: &[Sx]) -> HashMap<String, String> {
         }
     }
     let derives: Vec<build::DeriveSpec> = derive_texts.iter().map(|t| build::DeriveSpec { stem: format!("d{:016x}", build::fnv(t.as_bytes())), idl_text: t.clone() }).collect();
-    build::write_package(&bins, &derives);
+    build::write_package(&bins, &derives, &opt_specs);
     let mut stems: Vec<String> = bins.iter().map(|b| b.stem.clone()).collect();
     stems.extend(derives.iter().map(|d| d.stem.clone()));
+    stems.extend(opt_specs.iter().map(|o| o.stem.clone()));
     let built = match build::cargo_build(&stems) {
         Ok(b) => b,
         Err(e) => {
@@ -885,6 +993,40 @@ fn prepare(cases: &[Sx]) -> HashMap<String, String> {
         if kind == "helper-batch" {
             let st = build::helper_status();
             obs[ci] = Some(sx::tagged("helper-batch", vec![sx::atom(if st == "ok" { "ok" } else { "failed" })]).render());
+            continue;
+        }
+        if kind == "frontpath" {
+            let which = l.get(1).and_then(|x| x.as_atom()).unwrap_or("");
+            let rel = l.get(2).and_then(|x| x.as_str()).unwrap_or_default();
+            let text = l.get(3).and_then(src_text).unwrap_or_default();
+            if l.get(3).map(|s| s.render()) != Some(src_sx(&text).render()) || rel.is_empty() {
+                obs[ci] = Some("(bad-case)".into());
+                continue;
+            }
+            obs[ci] = Some(frontpath_obs(which, &rel, &text).render());
+            continue;
+        }
+        if kind == "options" {
+            let text = l.get(1).and_then(src_text).unwrap_or_default();
+            let ts = l.get(2).and_then(|x| x.as_atom()).unwrap_or("");
+            let pre = l.get(3).and_then(|x| x.as_atom()).unwrap_or("");
+            if l.get(1).map(|s| s.render()) != Some(src_sx(&text).render()) {
+                obs[ci] = Some("(bad-case)".into());
+                continue;
+            }
+            let stem = format!("o{:016x}", build::fnv(format!("{}\u{0}{}\u{0}{}", text, ts, pre).as_bytes()));
+            let st = build::opt_status(&stem);
+            let o = match st.as_str() {
+                "ok" => {
+                    let r = built.get(&stem).cloned().unwrap_or_default();
+                    let rustc = if r.built { sx::atom("ok") } else { category(&r.errors) };
+                    sx::tagged("options", vec![sx::atom("ok"), sx::tagged("rustc", vec![rustc])])
+                }
+                "err" => sx::tagged("options", vec![sx::tagged("rej", vec![sx::atom(match Idl::parse(&text) { Err(k) => k, Ok(_) => "accepted" })])]),
+                "panic" => sx::tagged("options", vec![sx::atom("panic")]),
+                other => sx::tagged("options", vec![sx::atom(format!("status-{}", other))]),
+            };
+            obs[ci] = Some(o.render());
             continue;
         }
         if kind == "frontmany" {
